@@ -76,6 +76,8 @@ def ref_point_to_segment(p, s1, s2):
 def run_instance(inst):
     from leuvenmapmatching.util import dist_latlon as dl
     kind = inst[0]
+    if kind == 'dss_structure':
+        return run_dss_structure(inst)
     shim = A.Installed()
     shim.install()
     name = f"latlon {kind}"
@@ -278,18 +280,162 @@ def concrete_box(dl, p, q, dist):
     return None
 
 
+DSS_GRID = [   # (f1, f2, t1, t2) at street scale (degrees): head-to-tail with a gap, reversed, parallel, crossing, T-shape, far apart
+    ((50.8700, 4.7000), (50.8700, 4.7010), (50.8700, 4.7020), (50.8700, 4.7040)),
+    ((50.8700, 4.7010), (50.8700, 4.7000), (50.8700, 4.7020), (50.8700, 4.7040)),
+    ((50.8700, 4.7000), (50.8700, 4.7010), (50.8700, 4.7040), (50.8700, 4.7020)),
+    ((50.8700, 4.7000), (50.8705, 4.7010), (50.8712, 4.7025), (50.8730, 4.7030)),
+    ((50.8700, 4.7000), (50.8700, 4.7020), (50.8703, 4.7000), (50.8703, 4.7020)),
+    ((50.8700, 4.7000), (50.8710, 4.7020), (50.8710, 4.7000), (50.8700, 4.7020)),
+    ((50.8700, 4.7000), (50.8700, 4.7020), (50.8704, 4.7010), (50.8720, 4.7010)),
+    ((-33.9000, 151.2000), (-33.9010, 151.2015), (-33.9030, 151.2040), (-33.9025, 151.2070)),
+    ((0.0002, -0.0010), (-0.0003, 0.0010), (0.0010, 0.0030), (0.0020, 0.0045)),
+]
+
+
+def concrete_dss(dl, f1, f2, t1, t2, tol=0.05):
+    """the reported distance must be the distance between the two reported points, the reported points must lie at the reported
+    relative positions, and swapping the end points of either segment must not change the distance (tolerance: 5 cm + 0.1 %)."""
+    d, pf, pt, u_f, u_t = dl.distance_segment_to_segment(f1, f2, t1, t2)
+    slack = tol + 1e-3 * d
+    if abs(d - gc_dist(pf, pt)) > slack:
+        return f"distance_segment_to_segment({f1},{f2},{t1},{t2}): reported distance {d} but the reported points {pf}, {pt} are {gc_dist(pf, pt)} m apart"
+    for (a, b, u, q, nm) in ((f1, f2, u_f, pf, 'f'), (t1, t2, u_t, pt, 't')):
+        seg = gc_dist(a, b)
+        if not (0 <= u <= 1) or abs(gc_dist(a, q) - u * seg) > tol + 1e-3 * seg:
+            return f"distance_segment_to_segment({f1},{f2},{t1},{t2}): point on {nm} {q} is not at relative position {u}"
+    for (g1, g2, h1, h2, nm) in ((f2, f1, t1, t2, 'f'), (f1, f2, t2, t1, 't'), (f2, f1, t2, t1, 'both')):
+        d2 = dl.distance_segment_to_segment(g1, g2, h1, h2)[0]
+        if abs(d - d2) > slack:
+            return f"distance_segment_to_segment({f1},{f2},{t1},{t2}) = {d} but {d2} with the end points of {nm} swapped"
+    return None
+
+
+def run_dss_structure(inst):
+    """Modular check of dist_latlon.distance_segment_to_segment: the geodesic primitives are replaced by symbolic stand-ins (distance:
+    fresh D >= 0 per point pair; bearing: a fresh angle per pair with cos^2+sin^2 = 1; destination(p, b, s): opaque point remembering
+    (p, b, s); radians/degrees identities), the planar kernel it delegates to is the real dist_euclidean code.  Claims: the reported
+    distance is the planar distance between the points at the reported relative positions in the local frame the function builds,
+    the relative positions are in [0,1], and the reported points are destination(start, bearing, u * length).  (That the primitives
+    and the planar kernel are right is the subject of the other C14 instances and of C13.)  Counterexamples are confirmed on a grid
+    of concrete street-scale segments against great-circle distances."""
+    from leuvenmapmatching.util import dist_latlon as dl
+    from symx import shims
+    budget = inst[1] if len(inst) > 1 else None
+    names = ('radians', 'degrees', 'cos', 'sin', 'distance_haversine_radians', 'bearing_radians', 'destination_radians')
+    saved = {k: getattr(dl, k) for k in names}
+    memo = {}
+
+    class Dest(tuple):
+        pass
+
+    def tid(x):
+        return x.t.get_id() if isinstance(x, E.Sym) else repr(x)
+
+    def install():
+        eng = E.get_engine()
+        dl.radians = lambda x: x
+        dl.degrees = lambda x: x
+
+        def dist(lat1, lon1, lat2, lon2, radius=None):
+            k = ('d', tid(lat1), tid(lon1), tid(lat2), tid(lon2))
+            if k not in memo:
+                d = eng.fresh(f"D{len(memo)}")
+                eng.assume(d.t >= 0)
+                memo[k] = d
+            return memo[k]
+
+        def bearing(lat1, lon1, lat2, lon2):
+            k = ('b', tid(lat1), tid(lon1), tid(lat2), tid(lon2))
+            if k not in memo:
+                b, c, s_ = eng.fresh(f"B{len(memo)}"), eng.fresh(f"cB{len(memo)}"), eng.fresh(f"sB{len(memo)}")
+                eng.assume(c.t * c.t + s_.t * s_.t == 1)
+                memo[k] = b
+                memo[('cos', b.t.get_id())] = c
+                memo[('sin', b.t.get_id())] = s_
+            return memo[k]
+
+        def dest(lat1, lon1, brng, s_):
+            n = len(memo)
+            lat, lon = eng.fresh(f"dlat{n}"), eng.fresh(f"dlon{n}")
+            memo[('p', lat.t.get_id())] = (tid(lat1), tid(lon1), tid(brng), s_)
+            return lat, lon
+        dl.cos = lambda x: memo[('cos', x.t.get_id())]
+        dl.sin = lambda x: memo[('sin', x.t.get_id())]
+        dl.distance_haversine_radians, dl.bearing_radians, dl.destination_radians = dist, bearing, dest
+
+    def scenario():
+        memo.clear()
+        eng = E.get_engine()
+        install()
+        P_ = {n: (eng.fresh(n + "_lat"), eng.fresh(n + "_lon")) for n in ('f1', 'f2', 't1', 't2')}
+        out = dl.distance_segment_to_segment(P_['f1'], P_['f2'], P_['t1'], P_['t2'])
+        # the local frame, rebuilt from the same stand-ins (memoised per arguments)
+        def polar(a, b):
+            d = dl.distance_haversine_radians(*P_[a], *P_[b])
+            br = dl.bearing_radians(*P_[a], *P_[b])
+            return d, br, (d * dl.cos(br), d * dl.sin(br))
+        dff, bff, F2 = polar('f1', 'f2')
+        _, _, T1 = polar('f1', 't1')
+        dtt, btt, dT = polar('t1', 't2')
+        return dict(out=out, F2=F2, T1=T1, dT=dT, dff=dff, bff=bff, dtt=dtt, btt=btt, P=P_, memo=dict(memo))
+
+    def claims(eng, v):
+        d, pf, pt, u_f, u_t = v['out']
+        L = E.lift
+        uf, ut = L(u_f), L(u_t)
+        fx, fy = uf * L(v['F2'][0]), uf * L(v['F2'][1])
+        tx, ty = L(v['T1'][0]) + ut * L(v['dT'][0]), L(v['T1'][1]) + ut * L(v['dT'][1])
+        D2 = (fx - tx) * (fx - tx) + (fy - ty) * (fy - ty)
+        dd = d.sq if isinstance(d, E.Sym) and d.sq is not None else L(d) * L(d)
+        cl = [('relative_positions_in_unit_interval', z3.And(uf >= 0, uf <= 1, ut >= 0, ut <= 1)),
+              ('reported_distance_is_the_distance_of_the_reported_positions', z3.And(L(d) >= 0, dd - D2 <= z3.Q(1, 10 ** 6) * (1 + D2), D2 - dd <= z3.Q(1, 10 ** 6) * (1 + D2)))]
+        m = v['memo']
+        for nm, q, start, br, ln, u in (('f', pf, v['P']['f1'], v['bff'], v['dff'], uf), ('t', pt, v['P']['t1'], v['btt'], v['dtt'], ut)):
+            rec = m.get(('p', q[0].t.get_id())) if isinstance(q[0], E.Sym) else None
+            ok = rec is not None and rec[0] == tid(start[0]) and rec[1] == tid(start[1]) and rec[2] == tid(br)
+            cl.append((f'point_on_{nm}_is_a_destination_from_its_start_along_its_bearing', z3.BoolVal(bool(ok))))
+            if ok:
+                cl.append((f'point_on_{nm}_lies_at_its_relative_position', L(rec[3]) == u * L(ln)))
+        return cl
+
+    def confirm(eng, model, v, cname):
+        with shims.concrete():
+            cur = {k: getattr(dl, k) for k in names}
+            for k, f in saved.items():
+                setattr(dl, k, f)
+            try:
+                for g in DSS_GRID:
+                    bad = concrete_dss(dl, *g)
+                    if bad:
+                        return dict(desc=bad, fn='dss', args=[list(x) for x in g])
+            finally:
+                for k, f in cur.items():
+                    setattr(dl, k, f)
+        return None
+    shims.install()
+    try:
+        out = runner.explore("latlon dss_structure", runner.nra_engine(TIMEOUT_MS[0]), scenario, claims, confirm=confirm, budget_s=budget,
+                             witness=lambda eng, v: ['dss_path'])
+    finally:
+        for k, f in saved.items():
+            setattr(dl, k, f)
+        shims.uninstall()
+    return out
+
+
 def main(tier):
     import_repo()
     from leuvenmapmatching.util import dist_latlon as dl
     rep = Report(PID, tier)
     rep.functions = src_hash(dl.distance, dl.distance_haversine_radians, dl.bearing_radians, dl.destination_radians, dl.distance_point_to_segment,
-                             dl.box_around_point)
+                             dl.box_around_point, dl.distance_segment_to_segment)
     budget = 150 if tier == 'quick' else 900
     TIMEOUT_MS[0] = 8000 if tier == 'quick' else 60000
-    res = run_instances(run_instance, [(k, budget) for k in ('distance', 'destination', 'dps', 'dps_swap', 'box', 'dps_equator', 'dps_equator_swap', 'dps_meridian', 'dps_near_start', 'dps_near_end')])
+    res = run_instances(run_instance, [(k, budget) for k in ('distance', 'destination', 'dps', 'dps_swap', 'box', 'dps_equator', 'dps_equator_swap', 'dps_meridian', 'dps_near_start', 'dps_near_end', 'dss_structure')])
     rep.bounds = dict(domain="all latitudes in [-90,90] and longitudes (angles as exact (sin,cos) pairs); destination: distance in (0, pi R); box: radius < ~10 km, |lat| < 60 deg",
                       claims="exact identities of spherical trigonometry against 3-D unit vectors; inconclusive (solver unknown) paths are reported as such")
-    rep.outside = ["numerical agreement 'within centimetres' of distance_segment_to_segment (local planar frame): an error bound on a transcendental approximation, not expressible",
+    rep.outside = ["numerical agreement 'within centimetres' of distance_segment_to_segment (local planar frame): an error bound on a transcendental approximation, not expressible; decided instead: the structure of the function over symbolic stand-ins of the geodesic primitives (dss_structure)",
                    "rounding; the relative position ti is a ratio of two angles and is only compared through 0/1 clamping", "poles and antimeridian"]
     rep.assumptions = ["sin/cos/asin/acos/atan2/half-angle/addition formulas as exact polynomial constraints (symx/angles.py)"]
     tags, known = {}, set()
@@ -326,6 +472,8 @@ def replay_file(path):
         bad = concrete_dps(dl, tuple(a[0]), tuple(a[1]), tuple(a[2]), swap=fn.endswith('swap'))
     elif fn == 'box':
         bad = concrete_box(dl, tuple(a[0]), tuple(a[1]), a[2])
+    elif fn == 'dss':
+        bad = concrete_dss(dl, *[tuple(x) for x in a])
     else:
         bad = d['observed']
     print(bad or "consistent")
